@@ -11,9 +11,19 @@ import Mathlib.Algebra.Order.Ring.Abs
 Model: `Model/Constraints.lean` (`splitLinear`, `splitNonlinear`, `isEquality`, `arraysTol`).
 Theorems over exact rationals: any number of components, every pattern of limits
 (`nan | ninf | fin | pinf` for lb and ub independently), any tolerance, any function values.
+
+Domain of the nonlinear model.  `NonlinearConstraints.__call__` selects the lower limits with `xl > -inf` and the
+upper ones with `xu < inf`: a limit with the WRONG-SIGN infinity (`lb = +inf`, `ub = -inf` — a statement no value
+satisfies) keeps a slack of `+inf` there, while `LinearConstraints` drops every non-finite limit.  The model has no
+infinite function values, so `splitNonlinear` is the code only on `WellSigned` limits; the theorems about the
+nonlinear translation carry that hypothesis explicitly.  (The harness does not generate wrong-sign infinities: they
+are contradictory statements, not patterns of the property.)
 -/
 namespace Cobyqa
 open Arith
+
+/-- no limit is the wrong-sign infinity -/
+def WellSigned {α : Type} (lims : List (Lim α × Lim α)) : Prop := ∀ p ∈ lims, p.1 ≠ .pinf ∧ p.2 ≠ .ninf
 
 @[simp] theorem rat_sub (a b : Rat) : Arith.sub a b = a - b := rfl
 @[simp] theorem rat_zeroA : (zeroA : Rat) = 0 := rfl
@@ -129,7 +139,8 @@ theorem nonlinear_slacks_faithful (tol : Rat) (lims : List (Lim Rat × Lim Rat))
       exact ⟨lb, _, k, ⟨by rw [List.mem_zipIdx_iff_getElem?]; exact hm, hne⟩, by simp [h]⟩
 
 /-- the two translations give the same set of inequality residuals -/
-theorem same_for_linear_and_nonlinear (tol : Rat) (lims : List (Lim Rat × Lim Rat)) (w : List Rat) (x : Rat) :
+theorem same_for_linear_and_nonlinear (tol : Rat) (lims : List (Lim Rat × Lim Rat)) (_hws : WellSigned lims)
+    (w : List Rat) (x : Rat) :
     x ∈ (splitNonlinear tol lims w).1 ↔ x ∈ ((splitLinear tol lims).1.map (rowResidual w)) := by
   rw [nonlinear_slacks_faithful, linear_residuals_faithful]
 
@@ -172,11 +183,30 @@ theorem maxInit0_congr (l l' : List Rat) (h : ∀ x, x ∈ l ↔ x ∈ l') : max
     · rw [c']; exact a
     · exact b _ ((h _).mpr c')
 
-/-- **C17, inequality part.**  The largest internal violation of the inequality rows equals the
-largest amount by which the values leave their limits — for linear and nonlinear constraints alike. -/
-theorem largest_violation_faithful (tol : Rat) (lims : List (Lim Rat × Lim Rat)) (w : List Rat) :
-    maxInit0 ((splitLinear tol lims).1.map (rowResidual w)) = maxInit0 (splitNonlinear tol lims w).1 :=
-  maxInit0_congr _ _ fun x => (same_for_linear_and_nonlinear tol lims w x).symm
+/-- the specification, written without reference to either translation: every amount by which a component that is
+not an equality leaves one of its finite limits -/
+def trueExcesses (tol : Rat) (lims : List (Lim Rat × Lim Rat)) (w : List Rat) : List Rat :=
+  (lims.zipIdx.filter fun (p, _) => !isEquality tol p.1 p.2).flatMap fun (p, k) => excesses p.1 p.2 (w.getD k 0)
+
+theorem mem_trueExcesses (tol : Rat) (lims : List (Lim Rat × Lim Rat)) (w : List Rat) (x : Rat) :
+    x ∈ trueExcesses tol lims w ↔
+      ∃ k lb ub, lims[k]? = some (lb, ub) ∧ isEquality tol lb ub = false ∧ x ∈ excesses lb ub (w.getD k 0) := by
+  unfold trueExcesses
+  simp only [List.mem_flatMap, List.mem_filter, Prod.exists, Bool.not_eq_true']
+  constructor
+  · rintro ⟨lb, ub, k, ⟨hm, hne⟩, hx⟩
+    exact ⟨k, lb, ub, by rw [List.mem_zipIdx_iff_getElem?] at hm; exact hm, hne, hx⟩
+  · rintro ⟨k, lb, ub, hm, hne, hx⟩
+    exact ⟨lb, ub, k, ⟨by rw [List.mem_zipIdx_iff_getElem?]; exact hm, hne⟩, hx⟩
+
+/-- **C17, inequality part.**  The largest internal violation of the inequality rows — of a linear constraint object
+and of a nonlinear one alike — equals the largest amount by which the values leave their limits (`max(…, 0)`
+over `trueExcesses`, a definition that mentions neither translation). -/
+theorem largest_violation_faithful (tol : Rat) (lims : List (Lim Rat × Lim Rat)) (_hws : WellSigned lims) (w : List Rat) :
+    maxInit0 ((splitLinear tol lims).1.map (rowResidual w)) = maxInit0 (trueExcesses tol lims w) ∧
+    maxInit0 (splitNonlinear tol lims w).1 = maxInit0 (trueExcesses tol lims w) :=
+  ⟨maxInit0_congr _ _ fun x => by rw [linear_residuals_faithful, mem_trueExcesses],
+   maxInit0_congr _ _ fun x => by rw [nonlinear_slacks_faithful, mem_trueExcesses]⟩
 
 /-- **C17, equality part.**  For a component detected as an equality (`|ub − lb| ≤ tol`) the internal
 residual `|w − (lb+ub)/2|` differs from the true violation `max(lb − w, w − ub, 0)` by at most
